@@ -142,7 +142,7 @@ func (sh *shared) specialFor(item, ent int, idx uint64) (int, bool) {
 	return 0, false
 }
 
-func entName(e int) string { return "e" + strconv.Itoa(e) }
+func entName(e int) string { return styled("e", e) }
 
 // keyName is entName extended to the three metadata keys (used for undeclared extra keys only)
 func keyName(e int) string {
@@ -165,6 +165,10 @@ func entOfKey(k string) (int, bool) {
 		return 1, true
 	case hercules.DependencyIsMerge:
 		return 2, true
+	}
+	if nameStyle != 0 {
+		v, ok := styledEntities()[k]
+		return v, ok
 	}
 	if strings.HasPrefix(k, "e") {
 		if v, err := strconv.Atoi(k[1:]); err == nil {
@@ -201,9 +205,9 @@ func (s itemSpec) nameAtom() string {
 
 func (b *base) Name() string {
 	if b.spec.Alias > 0 {
-		return "n" + strconv.Itoa(b.spec.Alias)
+		return styled("n", b.spec.Alias)
 	}
-	return "it" + strconv.Itoa(b.spec.Name)
+	return styled("it", b.spec.Name)
 }
 func (b *base) Provides() []string {
 	r := make([]string, len(b.spec.Provides))
@@ -463,8 +467,15 @@ func (nopLogger) Criticalf(string, ...interface{}) {}
 
 type commitSpec struct {
 	ID      int
-	Time    int64
+	Time    int64 // committer time (Unix)
 	Parents []int // ids
+	// Ext (round 4): the commit is written (id time parents (atime ctz atz nonce)): author time different from the committer
+	// time, zone offsets of the committer / author signature in minutes, and a nonce appended to the commit message (found by
+	// the generator so that the hash of this commit shares its first / last hex digits with another commit of the case)
+	Ext      bool
+	ATime    int64
+	CTZ, ATZ int
+	Nonce    string
 }
 
 type caseIn struct {
@@ -478,6 +489,11 @@ type caseIn struct {
 	Specials []special
 	// Runs: kinds reuse-*: the runs of ONE Pipeline object, in order (reuse.go); empty: a single run of everything
 	Runs []runSpec
+	// Names (round 4, field names): byte-level style of the item and entity names of the case (styled in round4.go)
+	Names int
+	// Twins (field twins, informational): (a b digits) - the generator searched nonces so that the hashes of commits a and b
+	// agree in their first (digits > 0) or last (digits < 0) |digits| hex digits
+	Twins [][3]int
 }
 
 var missRe = regexp.MustCompile(`^(?:it(\d+)|(n\d+)): Consume\(\) did not return e(\d+)$`)
@@ -505,13 +521,14 @@ type session struct {
 	ready    bool
 }
 
-func newSession(in caseIn) *session {
-	specs := make([]synth.CommitSpec, len(in.Commits))
+// synthSpecs: how the commits of a case are written into the in-memory repository
+func synthSpecs(cms []commitSpec) []synth.CommitSpec {
+	specs := make([]synth.CommitSpec, len(cms))
 	index := map[int]int{}
-	for i, c := range in.Commits {
+	for i, c := range cms {
 		index[c.ID] = i
 	}
-	for i, c := range in.Commits {
+	for i, c := range cms {
 		var ps []int
 		for _, p := range c.Parents {
 			if j, ok := index[p]; ok && j < i {
@@ -521,8 +538,19 @@ func newSession(in caseIn) *session {
 		specs[i] = synth.CommitSpec{Parents: ps, AuthorName: "u", AuthorEmail: "u@x",
 			AuthorWhen: time.Unix(c.Time, 0), Message: fmt.Sprintf("commit %d", c.ID),
 			Files: []synth.FileSpec{{Path: "f", Data: []byte(fmt.Sprintf("%d\n", c.ID))}}}
+		if c.Ext {
+			specs[i].AuthorWhen = time.Unix(c.ATime, 0).In(time.FixedZone("", c.ATZ*60))
+			specs[i].CommitterWhen = time.Unix(c.Time, 0).In(time.FixedZone("", c.CTZ*60))
+			if c.Nonce != "" {
+				specs[i].Message += " " + c.Nonce
+			}
+		}
 	}
-	repo, commits := synth.BuildRepo(specs)
+	return specs
+}
+
+func newSession(in caseIn) *session {
+	repo, commits := synth.BuildRepo(synthSpecs(in.Commits))
 	s := &session{in: in, commits: commits, byHash: map[string]*object.Commit{}}
 	s.sh = &shared{inj: in.Inj, injErr: errors.New("injected"), commitID: map[string]int{}, specials: in.Specials}
 	for i, c := range commits {
@@ -651,7 +679,10 @@ func (s *session) run(rs runSpec) (obs []Sx, nt bool, fatal error) {
 
 	var result map[hercules.LeafPipelineItem]interface{}
 	var err error
-	_, panicked := Catch(func() { result, err = pipeline.Run(commits) })
+	pmsg, panicked := Catch(func() { result, err = pipeline.Run(commits) })
+	if panicked && os.Getenv("C14_DEBUG") != "" {
+		fmt.Fprintln(os.Stderr, "Run panicked:", pmsg)
+	}
 
 	// the plan Run executed (the planner is not deterministic: map iteration decides the order of the
 	// replays of a merge commit, of simultaneous deletes and which of two equally large components is kept,
@@ -735,8 +766,10 @@ func (s *session) run(rs runSpec) (obs []Sx, nt bool, fatal error) {
 	case err != nil:
 		if err == sh.injErr {
 			res = T("res", A("err"), A("injected"))
-		} else if m := missRe.FindStringSubmatch(err.Error()); m != nil {
+		} else if m := missRe.FindStringSubmatch(err.Error()); m != nil && nameStyle == 0 {
 			res = T("res", A("err"), A("missing"), A(m[1]+m[2]), A(m[3]))
+		} else if it, e, ok := missStyled(resolved, err.Error()); ok && nameStyle != 0 {
+			res = T("res", A("err"), A("missing"), A(it), I(e))
 		} else {
 			res = T("res", A("err"), A("other"))
 		}
@@ -786,6 +819,10 @@ func (s *session) run(rs runSpec) (obs []Sx, nt bool, fatal error) {
 	if noplan {
 		obs = append(obs, T("noplan"))
 	}
+	if k := sharedAbbrev(commits, 7); k > 0 {
+		// informational: k of the commits handed to this run share their seven-digit abbreviation with another one
+		obs = append(obs, T("abbrev7", I(k)))
+	}
 	// PrintActions: what Run printed must be the executed prefix of the dumped plan (all of it when Run returned a result);
 	// without the option nothing is printed after the dump
 	if s.dump {
@@ -822,11 +859,28 @@ func (in caseIn) fields() []Sx {
 	cs := make([]Sx, len(in.Commits))
 	for i, c := range in.Commits {
 		cs[i] = L(I(c.ID), I64(c.Time), Ints(c.Parents))
+		if c.Ext {
+			nonce := c.Nonce
+			if nonce == "" {
+				nonce = "-"
+			}
+			cs[i].List = append(cs[i].List, L(I64(c.ATime), I(c.CTZ), I(c.ATZ), A(nonce)))
+		}
 	}
 	fs := []Sx{T("dist", I(in.Dist)), T("items", its...),
 		T("inject", A(in.Inj.Kind), I(in.Inj.Item), I(in.Inj.K), I(in.Inj.Ent))}
 	if in.PA {
 		fs = append(fs, T("pa", I(1)))
+	}
+	if in.Names != 0 {
+		fs = append(fs, T("names", I(in.Names)))
+	}
+	if len(in.Twins) > 0 {
+		tw := make([]Sx, len(in.Twins))
+		for i, x := range in.Twins {
+			tw[i] = L(I(x[0]), I(x[1]), I(x[2]))
+		}
+		fs = append(fs, T("twins", tw...))
 	}
 	if len(in.Specials) > 0 {
 		sp := make([]Sx, len(in.Specials))
@@ -883,7 +937,25 @@ func parseCase(s Sx) caseIn {
 	if f, ok := s.Field("commits"); ok {
 		for _, x := range f.Args() {
 			t, _ := strconv.ParseInt(x.List[1].Atom, 10, 64)
-			in.Commits = append(in.Commits, commitSpec{ID: x.List[0].Int(), Time: t, Parents: intsOf(x.List[2])})
+			cm := commitSpec{ID: x.List[0].Int(), Time: t, Parents: intsOf(x.List[2])}
+			if len(x.List) >= 4 && len(x.List[3].List) == 4 {
+				e := x.List[3].List
+				cm.Ext = true
+				cm.ATime, _ = strconv.ParseInt(e[0].Atom, 10, 64)
+				cm.CTZ, cm.ATZ = e[1].Int(), e[2].Int()
+				if e[3].Atom != "-" {
+					cm.Nonce = e[3].Atom
+				}
+			}
+			in.Commits = append(in.Commits, cm)
+		}
+	}
+	if f, ok := s.Field("names"); ok {
+		in.Names = f.Args()[0].Int()
+	}
+	if f, ok := s.Field("twins"); ok {
+		for _, x := range f.Args() {
+			in.Twins = append(in.Twins, [3]int{x.List[0].Int(), x.List[1].Int(), x.List[2].Int()})
 		}
 	}
 	if f, ok := s.Field("special"); ok {
@@ -913,6 +985,8 @@ func emit(c *Config, in caseIn) {
 	var obs []Sx
 	var nt bool
 	var fatal error
+	nameStyle = in.Names // cases are run one after the other
+	defer func() { nameStyle = 0 }()
 	if len(in.Runs) > 0 {
 		obs, nt, fatal = runReuse(&in)
 	} else {
@@ -1150,6 +1224,14 @@ func main() {
 		}
 		return
 	}
+	switch os.Getenv("C14_ONLY") { // private runs of one family (not used by ./check)
+	case "round4":
+		round4Streams(c)
+		return
+	case "corpusgen":
+		round4Corpus(c)
+		return
+	}
 	// exhaustive small scopes
 	pipes := [][]itemSpec{fixedPipeline(0, c), fixedPipeline(1, c), fixedPipeline(3, c)}
 	pipes[0][0].Copy, pipes[0][1].Copy, pipes[0][2].Copy = true, false, true
@@ -1238,4 +1320,7 @@ func main() {
 	// special-but-legal values of declared entities; one Pipeline object run on several commit selections (reuse.go)
 	specialStreams(c)
 	reuseStreams(c)
+	// round 4: content of values (round4.go): commit hashes that share their first / last digits, time (future of the wall clock,
+	// before 1970, author vs committer, zones), byte content of item / entity names, decimal widths, pairs of features
+	round4Streams(c)
 }
